@@ -81,6 +81,29 @@ Theorem C18_encoders_agree : forall (pre : bytes) (f : frame),
   frame_format_into_buf pre f = pre ++ frame_format f.
 Proof. exact frame_encoders_agree. Qed.
 
+(* the header code is injective and prefix-free: two encodings of which one is a prefix of the other (in
+   particular two equal encodings) come from the same header and the same length - so a byte stream can be
+   cut into headers in only one way *)
+Theorem C18_format_prefix_free : forall (h1 h2 : header) (n1 n2 : N) (rest1 rest2 : bytes),
+  wf_header h1 -> wf_header h2 -> n1 < two64 -> n2 < two64 ->
+  header_format h1 n1 ++ rest1 = header_format h2 n2 ++ rest2 ->
+  h1 = h2 /\ n1 = n2 /\ rest1 = rest2.
+Proof.
+  intros h1 h2 n1 n2 r1 r2 W1 W2 L1 L2 E.
+  pose proof (header_parse_format h1 n1 r1 W1 L1) as P1.
+  pose proof (header_parse_format h2 n2 r2 W2 L2) as P2.
+  rewrite E, P2 in P1. injection P1 as Eh En _. subst h2 n2.
+  repeat split. exact (app_inv_head _ _ _ E).
+Qed.
+
+Theorem C18_format_inj : forall (h1 h2 : header) (n1 n2 : N),
+  wf_header h1 -> wf_header h2 -> n1 < two64 -> n2 < two64 ->
+  header_format h1 n1 = header_format h2 n2 -> h1 = h2 /\ n1 = n2.
+Proof.
+  intros h1 h2 n1 n2 W1 W2 L1 L2 E.
+  destruct (C18_format_prefix_free h1 h2 n1 n2 [] [] W1 W2 L1 L2) as [A [B _]]; [rewrite E; reflexivity | auto].
+Qed.
+
 (* ---- non-vacuity / sanity ---- *)
 Definition ex_hdr : header := mkHeader true false true false (OData Binary) (Some (1, 2, 254, 255)).
 
@@ -130,3 +153,5 @@ Print Assumptions C18_prefix_stable.
 Print Assumptions C18_reencode.
 Print Assumptions C18_frame_len.
 Print Assumptions C18_encoders_agree.
+Print Assumptions C18_format_prefix_free.
+Print Assumptions C18_format_inj.
